@@ -1265,6 +1265,20 @@ def _fold_known_switches(c):
         if t["k"] != "switch" or t["discr"]["k"] not in ("move", "copy") or t["discr"]["place"]["p"]:
             continue
         d = _single_assign(c, t["discr"]["place"]["l"])
+        if d is not None and d["rv"]["k"] == "use" and d["rv"]["op"]["k"] == "const" and "bits" in d["rv"]["op"] \
+                and t["discr"]["place"]["l"] not in mut_borrowed and t["discr"]["place"]["l"] > c["arg_count"]:
+            # the switched local has one definition left and it is a constant (`matches!(end, End::Back)` after the match on the
+            # known `end` was folded and its dead arm emptied)
+            bits = str(d["rv"]["op"]["bits"])
+            tgt = None
+            for tv, tb in t["targets"]:
+                if str(tv) == bits:
+                    tgt = tb
+            if tgt is None:
+                tgt = t["otherwise"]
+            blk["term"] = {"k": "goto", "target": tgt, "span": t["span"], "folded": "constant " + bits}
+            n += 1
+            continue
         if d is None or d["rv"]["k"] != "discr":
             continue
         v = place_variant(d["rv"]["place"])
@@ -1371,8 +1385,11 @@ def specialise_closures(j, helpers, helper_bodies):
                         root = nl + 1
                     _rewrite_capture_reads(c, k, root)
                     c["blocks"][0]["stmts"] = pre + c["blocks"][0]["stmts"]
-                if consts and _fold_known_switches(c):
-                    _prune_unreachable(c)
+                if consts:
+                    for _round in range(4):
+                        if not _fold_known_switches(c):
+                            break
+                        _prune_unreachable(c)
                     hit = True
                 changed = True
                 rounds = 0
@@ -1480,8 +1497,11 @@ def inline_facts(j):
             inline_body(b, helpers, originals, stats)
             # a helper that branches on a field-less enum argument (`Stop::Backlog.pending(cx)`), read at a site that passes a
             # constant, does what that constant selects
-            if len(b["blocks"]) != n0 and _fold_known_switches(b):
-                _prune_unreachable(b)
+            if len(b["blocks"]) != n0:
+                for _round in range(4):
+                    if not _fold_known_switches(b):
+                        break
+                    _prune_unreachable(b)
     # helpers with no remaining direct call are analysed in place only
     remaining = set()
     for b in j["bodies"]:
